@@ -217,16 +217,28 @@ func genC08(g *Gen) {
 			for _, mgr := range []string{"unsafe", "safe"} {
 				// every argument count 0..8 with seeded random arguments of every type
 				for n := 0; n <= 8; n++ {
-					reps := 2
+					reps := g.Pick(2, 14)
 					if si > 0 {
-						reps = 1
+						reps = g.Pick(1, 4)
 					}
 					for k := 0; k < reps; k++ {
 						specs := make([]string, n)
 						for i := range specs {
-							if k == 0 {
+							switch {
+							case k == 0:
 								specs[i] = nums[r.Intn(len(nums))]
-							} else {
+							case k%3 == 2: // seeded random numbers inside the exactly modelled domain
+								switch r.Intn(4) {
+								case 0:
+									specs[i] = fmt.Sprintf("i:%d", r.Intn(2001)-1000)
+								case 1:
+									specs[i] = fmt.Sprintf("l:%d", r.Intn(200001)-100000)
+								case 2:
+									specs[i] = fmt.Sprintf("d:%v", float64(r.Intn(16001)-8000)/8)
+								default:
+									specs[i] = fmt.Sprintf("f:%v", float64(r.Intn(1601)-800)/4)
+								}
+							default:
 								specs[i] = c08generic[r.Intn(len(c08generic))]
 							}
 						}
